@@ -1,4 +1,5 @@
 """C05 -- the delegation check uses exactly the named role's keys and threshold (see harness/vdeleg.py)"""
+import sys
 from pysym.framework import Unit
 from pysym import concrete as CC
 from harness import vdeleg
@@ -7,17 +8,28 @@ ID = 'C05'
 PROPS = ('C05',)
 
 
-def units(tier):
+def configs(tier):
     q = tier == 'quick'
-    us = [Unit('verify_delegation:R2', vdeleg.factory_vd('d2', PROPS, R=2, M=1, N=1, junk=not q),
-               expect=('accepts', 'rejects:UnknownRoleError', 'rejects:SignatureError', 'rejects:MetadataVerificationError'), max_witnesses=300)]
+    cs = [('verify_delegation:R2', 'd2', dict(R=2, M=1, N=1, junk=False), {}, ('accepts', 'rejects:UnknownRoleError', 'rejects:SignatureError', 'rejects:MetadataVerificationError'), 300)]
     if not q:
-        us.append(Unit('verify_delegation:R2M2N2', vdeleg.factory_vd('d22', PROPS, R=2, M=2, N=2, junk=False, thr_kinds=('int', 'bool', 'float')),
-                       expect=('accepts',), max_witnesses=800))
-    return us
+        cs.append(('verify_delegation:R2M2N2', 'd22', dict(R=2, M=2, N=2, junk=True, thr_kinds=('int', 'bool', 'float')), {}, ('accepts',), 800))
+    return cs
+
+
+def pre(res, tier):
+    lem = []
+    for name, ns, kw, extra, expect, nw in configs(tier):
+        lem += vdeleg.lemma_units('vd', ns, **kw)
+    vdeleg.prove_checker_lemmas(res, sys.modules[__name__], lem)
+
+
+def units(tier):
+    return [Unit(name, vdeleg.factory_vd(ns, PROPS, **extra, **kw), expect=expect, max_witnesses=nw) for name, ns, kw, extra, expect, nw in configs(tier)]
 
 
 def concrete(case):
+    if case.get('scenario') == 'lemma':
+        return {}
     return vdeleg.run_vd(case)
 
 
@@ -26,11 +38,14 @@ def agrees(case, obs):
 
 
 def judge(case, obs):
+    if case.get('scenario') == 'lemma':
+        return None
     return vdeleg.judge_vd(case, obs, PROPS)
 
 
 BOUNDS = dict(trusted='delegating metadata with 2 roles of free names (<= 8 chars), 1 (quick) / 2 (thorough) free key strings (<= 66 chars) each, any int threshold (thorough: bool / binary64 too), free type (<= 8 chars), any int version, free 3-character expiration',
-              untrusted='envelope whose signed part is such a document with one role (its delegations field present or absent, i.e. delegating metadata or not) and a free declared type; signature map of 1 (quick) / 2 (thorough) entries under free keys plus one junk entry of any JSON kind',
+              untrusted='envelope whose signed part is such a document with one role (its delegations field present or absent, i.e. delegating metadata or not) and a free declared type; signature map of 1 (quick) / 2 (thorough) entries under free keys; C06 and the thorough tier add one junk entry of any JSON kind',
               role_name='free string <= 8 chars', mode='gpg in {True, False}')
 OUTSIDE = 'more roles / keys / entries than stated; untrusted payloads that are not dictionaries; ed25519 forgeability (Valid uninterpreted)'
-ASSUMPTIONS = ['A2 (Valid uninterpreted), A3 (canonical serialisation injective)', 'well-formedness of delegating metadata = the schema of C14, with datetime.strptime abstracted by IsoOK']
+ASSUMPTIONS = ['A2 (Valid uninterpreted), A3 (canonical serialisation injective)',
+               'well-formedness of delegating metadata = the schema of C14 with datetime.strptime abstracted by IsoOK; the checker is replaced by that schema on a template only after `checker accepts <=> schema` was proved for that very template in the same run (lemma units), and its rejection class is then abstracted to {TypeError, ValueError}']
